@@ -10,6 +10,7 @@ import (
 	"fmt"
 	"os"
 	"path/filepath"
+	"reflect"
 	"testing"
 
 	"github.com/cloudflare/circl/dh/csidh"
@@ -587,11 +588,16 @@ func TestC11SeqKeyPair(t *testing.T) {
 			}
 			u, ok := obj.(unm)
 			vlib.Eval(sub)
+			how := "decoding another public key into"
 			if !ok {
-				vlib.Class(sub, "public-key-type-has-no-UnmarshalBinary")
-				return
-			}
-			if err := u.UnmarshalBinary(append([]byte{}, pkBb...)); err != nil {
+				// slice-typed keys (Ed25519, Ed448): the caller can write into the returned bytes
+				how = "overwriting the bytes of"
+				if scribble(reflect.ValueOf(obj), 0) == 0 {
+					vlib.Class(sub, "public-key-object-not-writable")
+					return
+				}
+				target += "(bytes overwritten)"
+			} else if err := u.UnmarshalBinary(append([]byte{}, pkBb...)); err != nil {
 				t.Fatalf("harness: valid public key refused: %v", err)
 			}
 			if !useBefore {
@@ -601,7 +607,7 @@ func TestC11SeqKeyPair(t *testing.T) {
 			}
 			if got := observe(); got != want {
 				vlib.Report(t, "C11/keypair/sign/"+s.Name()+"/private-key-changed-by-decoding-into-its-public-key",
-					fmt.Sprintf("after decoding another public key into %s the private key observes\n %.200s\nexpected\n %.200s", target, got, want))
+					fmt.Sprintf("after "+how+" %s the private key observes\n %.200s\nexpected\n %.200s", target, got, want))
 				return
 			}
 			vlib.NonTrivial(sub, "decode-into-"+target, seedA, seedB, msg)
